@@ -47,6 +47,9 @@ func DecodeElng(hdr BoxHeader, startPos uint64, r io.Reader) (Box, error) {
 func DecodeElngSR(hdr BoxHeader, startPos uint64, sr bits.SliceReader) (Box, error) {
 	b := ElngBox{}
 	plLen := hdr.payloadLen()
+	if plLen < 1 {
+		return nil, fmt.Errorf("elng payload size %d is less than 1 (string termination)", plLen)
+	}
 	isLegacy := plLen < 7 // Less than 4 byte flag and version + 2 letters + 0 termination
 	if isLegacy && plLen >= 5 {
 		// A language tag does not start with zero bytes, so this is version and flags followed by a short tag
